@@ -954,6 +954,7 @@ func runRejectInert(c *Ctx) {
 					}
 					nDecisive++
 					why := ""
+					inherited := false
 					seen := map[ssa.Value]bool{}
 					var walk func(v ssa.Value, d int)
 					walk = func(v ssa.Value, d int) {
@@ -966,6 +967,9 @@ func runRejectInert(c *Ctx) {
 							if x.Block() == l.Header {
 								if sl, isSl := x.Type().Underlying().(*types.Slice); isSl && strings.Contains(sl.Elem().String(), "warnings.") {
 									return
+								}
+								if inherited && cachePhis[x] {
+									return // a lookup cache on the way to the test: its coherence is the CACHE rule's subject
 								}
 								why = "the loop-carried variable " + x.Comment
 								return
@@ -1035,6 +1039,18 @@ func runRejectInert(c *Ctx) {
 						}
 					}
 					walk(iff.Cond, 0)
+					// the conditions under which the deciding test is reached at all belong to the decision (`if !found { if
+					// type == "2" { continue } }` rejects for "not found so far")
+					if why == "" {
+						inherited = true
+						for _, ce := range dominatingConds(b) {
+							if ce.Composite || ce.If == nil || !l.Blocks[ce.If.Block()] || ce.If.Block() == l.Header {
+								continue
+							}
+							walk(ce.Cond, 0)
+						}
+						inherited = false
+					}
 					if why != "" {
 						earlier = append(earlier, p.ipos(iff)+": the test that decides whether the row is kept reads "+why)
 					}
